@@ -742,7 +742,7 @@ def rule_hashspan(ctx):
     return 2
 
 
-def rule_reverse(ctx):
+def rule_reverse(ctx, rule='C13.REVERSE'):
     f = ctx.func('bp', 'OnDiskBlock.iter_txs_reversed')
     fors = [s for s in f.node.body if isinstance(s, ast.For)]
     if len(fors) != 1:
@@ -758,18 +758,31 @@ def rule_reverse(ctx):
         raise AnalysisError(f'{f.key}: offsets are not taken from self._chunk_offsets()')
     ov = offs[0].targets[0].id
     it = outer.iter
-    ok = is_reversed(it) and norm(it.args[0]) == f'range(len({ov}) - 1)'
-    ctx.check(ok, 'C13.REVERSE', ctx.key(f, outer), 'chunk ranges walked last to first, all of them',
-              f'chunk ranges not walked as reversed(range(len({ov}) - 1)): {norm(it)}', loc=ctx.loc(f, outer))
-    n += 1
-    nv = norm(outer.target)
-    starts = [s for s in outer.body if isinstance(s, ast.Assign) and norm(s.value) == f'{ov}[{nv}]']
-    sizes = [s for s in outer.body if isinstance(s, ast.Assign) and starts and
-             norm(s.value) == f'{ov}[{nv} + 1] - {norm(starts[0].targets[0])}']
     reads = [c for c in walk_own(outer) if isinstance(c, ast.Call) and q.callee_name(ctx, f, c) == 'self._read_at_pos']
-    ok = len(starts) == 1 and len(sizes) == 1 and len(reads) == 1 and \
-        [norm(a) for a in reads[0].args] == [norm(starts[0].targets[0]), norm(sizes[0].targets[0])]
-    ctx.check(ok, 'C13.REVERSE', ctx.key(f, outer, 'chunk span'),
+    sizes = []
+    # idiom A: for n in reversed(range(len(offsets) - 1)): start = offsets[n]; size = offsets[n + 1] - start
+    form_a = is_reversed(it) and norm(it.args[0]) == f'range(len({ov}) - 1)'
+    # idiom B: for start, end in reversed(list(zip(offsets, offsets[1:]))): size = end - start
+    form_b = is_reversed(it) and isinstance(it.args[0], ast.Call) and norm(it.args[0].func) in ('list', 'tuple') \
+        and len(it.args[0].args) == 1 and norm(it.args[0].args[0]) == f'zip({ov}, {ov}[1:])' \
+        and isinstance(outer.target, ast.Tuple) and len(outer.target.elts) == 2
+    ctx.check(form_a or form_b, rule, ctx.key(f, outer), 'chunk ranges walked last to first, all of them',
+              f'the chunk ranges are not walked last to first over all of {ov} (iterating `{norm(it)[:70]}`): undo entries are paired '
+              'with the wrong transactions when a block spans several chunks', loc=ctx.loc(f, outer))
+    n += 1
+    ok = False
+    if form_a:
+        nv = norm(outer.target)
+        starts = [s for s in outer.body if isinstance(s, ast.Assign) and norm(s.value) == f'{ov}[{nv}]']
+        sizes = [s for s in outer.body if isinstance(s, ast.Assign) and starts and
+                 norm(s.value) == f'{ov}[{nv} + 1] - {norm(starts[0].targets[0])}']
+        ok = len(starts) == 1 and len(sizes) == 1 and len(reads) == 1 and \
+            [norm(a) for a in reads[0].args] == [norm(starts[0].targets[0]), norm(sizes[0].targets[0])]
+    elif form_b or (isinstance(outer.target, ast.Tuple) and len(outer.target.elts) == 2):
+        sv, ev = (norm(e) for e in outer.target.elts)
+        sizes = [s for s in outer.body if isinstance(s, ast.Assign) and norm(s.value) == f'{ev} - {sv}']
+        ok = len(sizes) == 1 and len(reads) == 1 and [norm(a) for a in reads[0].args] == [sv, norm(sizes[0].targets[0])]
+    ctx.check(ok, rule, ctx.key(f, outer, 'chunk span'),
               'each chunk is read at [offsets[n], offsets[n+1])', 'chunk span is not [offsets[n], offsets[n+1])',
               loc=ctx.loc(f, outer))
     n += 1
@@ -788,7 +801,7 @@ def rule_reverse(ctx):
             ok = len(apps) == 1 and len(inits) == 1 and len(wl) == 1 and q.in_body(apps[0], wl[0].body) \
                 and q.callee_name(ctx, f, apps[0].args[0]).endswith('.read_tx_and_hash') \
                 and q.cmp_matches(ctx, f, wl[0].test, f'{dv}.cursor < {norm(sizes[0].targets[0]) if sizes else "x"}')
-    ctx.check(ok, 'C13.REVERSE', ctx.key(f, outer, 'pairs reversed'),
+    ctx.check(ok, rule, ctx.key(f, outer, 'pairs reversed'),
               'the transactions of a chunk are parsed to its end, collected per chunk and yielded in reverse',
               'the transactions of a chunk are not collected completely and yielded in reverse', loc=ctx.loc(f, outer))
     return n + 1
@@ -796,8 +809,8 @@ def rule_reverse(ctx):
 
 def run(ctx):
     rd = Readers(ctx)
-    if len(rd.prims) < 5:
-        raise AnalysisError('fewer than 5 fixed-width readers found in lib/tx.py')
+    if len(rd.prims) < 3:
+        raise AnalysisError('fewer than 3 fixed-width readers found in lib/tx.py')
     ctx.rule('C13.CODEC', lambda: compare_codec(ctx, rd, ctx.func('tx', 'read_tx'), 'Tx'), 3)
     ctx.rule('C13.VARINT', lambda: rule_varint(ctx, rd), 4)
     ctx.rule('C13.WIDTH', lambda: rule_width(ctx, rd), 5)
